@@ -38,10 +38,10 @@ ASSUMPTIONS = ["for thermal CX with several donors, a donor with non-positive de
                "hydrogen-isotope neutral densities of mixed sign are not generated for TotalRadiatedPower (statement silent)",
                "bremsstrahlung bins are chosen so that the integrand varies by at most ~e^8 over a bin",
                "coefficients are non-negative (mock provider); negative coefficients are outside the statement"]
-QUICK = dict(cases=3000, workers=2, timecap=45)
-THOROUGH = dict(cases=300000, workers=16, timecap=600)
-REQUIRED = {"total": 400, "rate_args": 300, "guard": 150, "nonneg": 400, "linearity": 150, "additivity": 50,
-            "brems_bins": 200, "trp_bins": 100, "radfn_bins": 20}
+QUICK = dict(cases=2000, workers=2, timecap=35)
+THOROUGH = dict(cases=200000, workers=16, timecap=600)
+REQUIRED = {"total": 200, "rate_args": 200, "guard": 80, "nonneg": 200, "linearity": 100, "additivity": 30,
+            "brems_bins": 100, "trp_bins": 50, "radfn_bins": 5}
 
 # own CODATA-2018 constants (REFMATH)
 E = 1.602176634e-19
@@ -695,7 +695,11 @@ def _run_line(case, ctx):
             best = r if best is None else min(best, r)
         mon = "total" if scen in ("positive", "zero-rate") else "guard"
         ctx.mon(mon)
-        ctx.margin(mon if shape != "stark" else mon + "_stark", best)
+        if best <= 1.0:
+            # (donor scenarios get their own margin: the open ThermalCXLine finding moves the total continuously, so
+            #  unguarded donors with a tiny weight pass arbitrarily close to the tolerance)
+            mname = "guard_tcx_donor" if scen.startswith("donor-") else mon
+            ctx.margin(mname if shape != "stark" else mname + "_stark", best)
         if best > 1.0:
             k2 = key
             if kind == "tcx" and scen == "positive":
